@@ -69,16 +69,25 @@ def check_loopless_solution(ctx, rule: str) -> None:
     problems: Dict[str, str] = {}
     n = 0
     for direction in ("max", "min"):
-        for given in ("none", "dict", "series"):
+        for given in ("none", "dict", "series", "dict in another order", "series in another order"):
             model = _model(direction)
             oracle: _Oracle = model.script
-            it = Interp(prog, NATIVE, FOLLOW, {}, globals_={"Zero": Lin()})
+            from .. import ndmodel
+
+            # helpers the function was factored into belong to it; numpy is modelled as far as handling a vector goes
+            np_stubs = {k: (lambda f_: (lambda it_, ev, c, a, kw: f_(*a, **kw)))(f) for k, f in ndmodel.NUMPY.items()}
+            helpers = [f.qualname for f in prog.all_funcs() if f.qualname.startswith("cobra.flux_analysis.loopless._") and f.parent is None]
+            it = Interp(prog, NATIVE + (ndmodel.NA, ndmodel.NScalar), FOLLOW + [h for h in helpers if h not in FOLLOW], np_stubs, globals_={"Zero": Lin()})
             start = {rid: fl for rid, (_, _, fl, _) in ROWS.items()}
             kwargs: Dict[str, Any] = {}
             if given == "dict":
                 kwargs["fluxes"] = dict(start)
             elif given == "series":
                 kwargs["fluxes"] = Ser(list(start.values()), list(start))
+            elif given == "dict in another order":
+                kwargs["fluxes"] = dict(sorted(start.items(), key=lambda kv: kv[1]))
+            elif given == "series in another order":
+                kwargs["fluxes"] = Ser(sorted(start.values()), sorted(start, key=lambda k: start[k]))
             # model.optimize hands out the fluxes as a series
             orig_opt = model.optimize
 
